@@ -704,6 +704,28 @@ pub fn c04_fixed_tx<S: Src>(_s: &mut S) {
             }
         }
     }
+    // both signature fields present in non-canonical form: adding a signature of ONE kind leaves the OTHER field's bytes alone
+    {
+        let vk = format!("8258{:02x}{}58{:02x}{}", 32, "09".repeat(32), 64, "07".repeat(64));
+        let boot = format!("8458{:02x}{}58{:02x}{}58{:02x}{}41a0", 32, "09".repeat(32), 64, "07".repeat(64), 32, "03".repeat(32));
+        for (vk_field, boot_field) in [(format!("9f{}ff", vk), format!("9f{}ff", boot)), (format!("81{}", vk), format!("81{}", boot)), (format!("9f{}ff", vk), "80".to_string()), ("80".to_string(), format!("9f{}ff", boot))] {
+            let wsb = unhex(&format!("a200{}02{}", vk_field, boot_field));
+            let sk = PrivateKey::from_normal_bytes(&[9u8; 32]).unwrap();
+            if let Ok(mut tx) = FixedTransaction::new(&body1, &wsb, true) {
+                let _ = tx.sign_and_add_vkey_signature(&sk);
+                let out = tx.to_bytes();
+                let fb = unhex(&format!("02{}", boot_field));
+                if !out.windows(fb.len()).any(|x| x == &fb[..]) { failures.push(format!("adding a key signature re-encodes the untouched bootstrap field (given as {})", &boot_field[..boot_field.len().min(12)])); }
+            } else { failures.push("fixture witness set with both signature fields does not load".into()); }
+            if let Ok(mut tx) = FixedTransaction::new(&body1, &wsb, true) {
+                let bw = BootstrapWitness::from_bytes(unhex(&boot)).unwrap();
+                let _ = tx.add_bootstrap_witness(&bw);
+                let out = tx.to_bytes();
+                let fb = unhex(&format!("00{}", vk_field));
+                if !out.windows(fb.len()).any(|x| x == &fb[..]) { failures.push(format!("adding a bootstrap signature re-encodes the untouched key-witness field (given as {})", &vk_field[..vk_field.len().min(12)])); }
+            }
+        }
+    }
     // datum bytes: decoded datum re-encodes to the same bytes (non-canonical forms)
     for hx in ["9f0102ff", "d8669f18c880ff", "d8668218c880", "d87a9f01ff", "bf0102ff", "5f42010243030405ff", "1903e8", "c249010000000000000000", "d905019f00ff"] {
         let b = unhex(hx);
@@ -753,6 +775,45 @@ fn c13_value_size_scenarios(failures: &mut Vec<String>) {
     }
 }
 
+/// inputs owned by many distinct keys in one transaction (the witness-set array header changes width at 24 and 256
+/// witnesses): fee >= minimum fee of the fully signed transaction, signed size <= max_tx_size
+fn c13_many_owners(failures: &mut Vec<String>) {
+    let lin = LinearFee::new(&bn(44), &bn(155381));
+    let target = BaseAddress::new(0, &kc(5), &kc(6)).to_address();
+    for owners in [20usize, 23, 24, 25, 30, 60] {
+        let mut utxos = TransactionUnspentOutputs::new();
+        for i in 0..owners {
+            let mut k = [0x40u8; 28]; k[0] = i as u8; k[1] = (i >> 8) as u8;
+            let a = EnterpriseAddress::new(0, &Credential::from_keyhash(&Ed25519KeyHash::from(k))).to_address();
+            utxos.add(&TransactionUnspentOutput::new(&TransactionInput::new(&TransactionHash::from([0x3cu8; 32]), i as u32), &TransactionOutput::new(&a, &Value::new(&bn(2_000_000)))));
+        }
+        for limit in [16384u32, 12000, 8000, 6000, 5000, 4000] {
+            let cfg = TransactionBuilderConfigBuilder::new().fee_algo(&lin).pool_deposit(&bn(500_000_000)).key_deposit(&bn(2_000_000))
+                .max_value_size(4000).max_tx_size(limit).coins_per_utxo_byte(&bn(4310)).build().unwrap();
+            if let Ok(batches) = create_send_all(&target, &utxos, &cfg) {
+                for bi in 0..batches.len() {
+                    let batch = batches.get(bi);
+                    for ti in 0..batch.len() {
+                        let tx = batch.get(ti);
+                        let body = tx.body();
+                        let nkeys = body.inputs().len();          // every input has its own owner
+                        let mut ws = tx.witness_set();
+                        let mut vk = Vkeywitnesses::new();
+                        for k in 0..nkeys { let mut b = [9u8; 32]; b[31] = k as u8; b[30] = (k >> 8) as u8; vk.add(&Vkeywitness::new(&Vkey::new(&PublicKey::from_bytes(&b).unwrap()), &sig())); }
+                        ws.set_vkeys(&vk);
+                        let signed = Transaction::new(&body, &ws, None);
+                        let ssize = signed.to_bytes().len();
+                        if ssize > limit as usize { failures.push(format!("{} owners, limit {}: signed transaction of {} bytes exceeds max_tx_size", owners, limit, ssize)); }
+                        let need = u64::from(min_fee(&signed, &lin).unwrap());
+                        let fee = u64::from(body.fee());
+                        if fee < need { failures.push(format!("{} owners ({} key witnesses in this transaction), limit {}: fee {} below the minimum {} for the signed size", owners, nkeys, limit, fee, need)); }
+                    }
+                }
+            }
+        }
+    }
+}
+
 pub fn c13_send_all<S: Src>(_s: &mut S) {
     let owner_tokens = BaseAddress::new(0, &kc(1), &kc(2)).to_address();
     let owner_ada = BaseAddress::new(0, &kc(3), &kc(4)).to_address();
@@ -777,6 +838,7 @@ pub fn c13_send_all<S: Src>(_s: &mut S) {
     let lin = LinearFee::new(&bn(44), &bn(155381));
     let mut failures: Vec<String> = Vec::new();
     c13_value_size_scenarios(&mut failures);
+    c13_many_owners(&mut failures);
     let mut successes = 0;
     let mut limit = 1400u32;
     while limit <= 2600 {
@@ -1227,4 +1289,77 @@ pub fn c05_change_step<S: Src>(_s: &mut S) {
     }
     assert!(successes >= 100, "the battery is vacuous: only {} balancing successes", successes);
     assert!(failures.is_empty(), "{} balanced-by-report bodies do not conserve value; first: {}", failures.len(), failures[0]);
+}
+
+// ---------------------------------------------------------------- C16: Hash agrees with Eq for what sits inside set elements
+/// pairs that are `==` but arrived in different wire forms (tagged set / plain array): they must hash alike, and a
+/// certificate / proposal set given both forms keeps one
+pub fn c16_hash_eq<S: Src>(_s: &mut S) {
+    use std::collections::hash_map::DefaultHasher;
+    use std::hash::{Hash, Hasher};
+    fn h<T: Hash>(x: &T) -> u64 { let mut s = DefaultHasher::new(); x.hash(&mut s); s.finish() }
+    let mut failures: Vec<String> = Vec::new();
+    let khs_tagged = Ed25519KeyHashes::from_bytes(unhex(&format!("d9010281581c{}", "01".repeat(28)))).unwrap();
+    let khs_plain = Ed25519KeyHashes::from_bytes(unhex(&format!("81581c{}", "01".repeat(28)))).unwrap();
+    if khs_tagged == khs_plain && h(&khs_tagged) != h(&khs_plain) { failures.push("Ed25519KeyHashes: a tagged and an untagged list of the same keys are == but hash differently".into()); }
+    let cr = format!("8200581c{}", "02".repeat(28));
+    let cr_tagged = Credentials::from_bytes(unhex(&format!("d9010281{}", cr))).unwrap();
+    let cr_plain = Credentials::from_bytes(unhex(&format!("81{}", cr))).unwrap();
+    if cr_tagged == cr_plain && h(&cr_tagged) != h(&cr_plain) { failures.push("Credentials: a tagged and an untagged list of the same credentials are == but hash differently".into()); }
+    // a pool registration whose owner list arrives in both forms, offered to a certificate set 12 times each
+    let mk = |owners: &Ed25519KeyHashes, i: u8| {
+        let params = PoolParams::new(&kh(i), &VRFKeyHash::from([3u8; 32]), &bn(1), &bn(2), &UnitInterval::new(&bn(1), &bn(2)), &RewardAddress::new(0, &kc(5)), owners, &Relays::new(), None);
+        Certificate::new_pool_registration(&PoolRegistration::new(&params))
+    };
+    let mut certs = Certificates::new();
+    for i in 0..12u8 { certs.add(&mk(&khs_tagged, i)); certs.add(&mk(&khs_plain, i)); }
+    if certs.len() != 12 { failures.push(format!("12 pool registrations offered in two == forms each: the certificate set holds {}", certs.len())); }
+    assert!(failures.is_empty(), "{} hash / equality disagreements; first: {}", failures.len(), failures[0]);
+}
+
+// ---------------------------------------------------------------- C07 / C19: the collateral return meets the minimum ADA of ITS OWN output
+/// return addresses of every size class (enterprise 29, base 57, pointer with 10-byte naturals 59, Daedalus Byron 76+ bytes),
+/// leftovers swept across the window around the output's own minimum: whenever a setter accepts, the stored return
+/// carries at least coins_per_byte * (160 + its serialized size)
+pub fn c19_return_min_ada<S: Src>(_s: &mut S) {
+    let mut failures: Vec<String> = Vec::new();
+    let cfg = config(false);
+    let dc = DataCost::new_coins_per_byte(&bn(4310));
+    let big = BigNum::from(u64::MAX);
+    let addrs: Vec<(&str, Address)> = vec![
+        ("enterprise", EnterpriseAddress::new(0, &kc(1)).to_address()),
+        ("base", BaseAddress::new(0, &kc(1), &kc(2)).to_address()),
+        ("pointer (10-byte naturals)", PointerAddress::new(0, &kc(1), &Pointer::new_pointer(&big, &big, &big)).to_address()),
+        ("Byron (Daedalus)", ByronAddress::from_base58("DdzFFzCqrhsrcTVhLygT24QwTnNqQqQ8mZrq5jykUzMveU26sxaH529kMpo7VhPrt5pwW3dXeB2k3EEvKcNBRmzCfcQ7dTkyGzTs658C").unwrap().to_address()),
+    ];
+    let input_coin = 10_000_000u64;
+    let mut accepted = 0usize;
+    for (what, a) in &addrs {
+        let own_min = u64::from(min_ada_for_output(&TransactionOutput::new(a, &Value::new(&bn(1_000_000))), &dc).unwrap());
+        let mut left = own_min.saturating_sub(150_000);
+        while left <= own_min + 20_000 {
+            for mode in 0..2u8 {
+                let mut tb = TransactionBuilder::new(&cfg);
+                let mut col = TxInputsBuilder::new();
+                col.add_regular_input(&addr(1, 1), &TransactionInput::new(&TransactionHash::from([2u8; 32]), 0), &Value::new(&bn(input_coin))).unwrap();
+                tb.set_collateral(&col);
+                let ok = if mode == 0 { tb.set_total_collateral_and_return(&bn(input_coin - left), a).is_ok() }
+                         else { tb.set_collateral_return_and_total(&TransactionOutput::new(a, &Value::new(&bn(left)))).is_ok() };
+                if !ok { continue; }
+                let mut b = tb.clone();
+                b.set_fee(&bn(0));
+                if let Ok(body) = b.build() {
+                    if let Some(r) = body.collateral_return() {
+                        accepted += 1;
+                        let need = u64::from(min_ada_for_output(&r, &dc).unwrap());
+                        let have = u64::from(r.amount().coin());
+                        if have < need && failures.len() < 5 { failures.push(format!("{} return address, setter {}: accepted a collateral return of {} lovelace, its own minimum is {}", what, mode, have, need)); }
+                    }
+                }
+            }
+            left += 1_000;
+        }
+    }
+    assert!(accepted >= 20, "vacuous: only {} accepted collateral returns", accepted);
+    assert!(failures.is_empty(), "{} collateral returns below their own minimum ADA; first: {}", failures.len(), failures[0]);
 }
